@@ -502,6 +502,8 @@ def absorb_aspects(rep, pid, t, recs, aspects, describe):
         key = '%s n=%d %s%s%s%s%s' % (rec['logic'], rec['n'], rec['formula'], (' order=%s' % rec['perm']) if rec.get('perm') else '',
                                       (' states=%s' % (opts.get('states'),)) if opts.get('states') else '', (' tie-seed=%s' % opts['tie']) if opts.get('tie') is not None else '',
                                       (' atoms=%s' % (opts.get('label_pool'),)) if opts.get('label_pool') else '')
+        if opts.get('edge_then_call'):
+            key += ' history: call, edit label, add_edge%s, call' % (tuple(opts['edge_then_call']),)
         if rec.get('verdict') == 'unsupported':
             rep.inconclusive('%s: %s' % (key, rec['error']))
             rep.obligation(key, 'unsupported')
@@ -551,6 +553,13 @@ def absorb_aspects(rep, pid, t, recs, aspects, describe):
                         "print('first call ->', r1, '; after the caller added p to the last state ->', r2, '; reference for the edited structure ->', want)\n"
                         "bad = [] if (isinstance(r2, set) and norm(r2) == want) else ['stale answer after an in-place edit of the structure: %%r, expected %%r' %% (r2, want)]\n"
                         % (rec['logic'], rec['formula'], rec['logic'], rec['formula'], fm))
+            elif a == 'after_edge':
+                body = ("r1 = run(%r, %r, K)\nlast = states[n - 1]\nK.labels(last).add(names['p'])\nK.add_edge(states[%d], states[%d])\nr2 = run(%r, %r, K)\n"
+                        "L2 = {i: sorted(set(L[i]) | ({'p'} if i == n - 1 else set())) for i in range(n)}\nR2 = sorted(set(R) | {(%d, %d)})\n"
+                        "want = explicit.sat_states(explicit.Struct(n, R2, L2), CTLS.Parser()(%r))\n"
+                        "print('first call ->', r1, '; after the caller added p to the last state and the transition %s ->', r2, '; reference for the edited structure ->', want)\n"
+                        "bad = [] if (isinstance(r2, set) and norm(r2) == want) else ['stale answer after add_edge on the structure: %%r, expected %%r' %% (r2, want)]\n"
+                        % (rec['logic'], rec['formula'], rec['edge'][0], rec['edge'][1], rec['logic'], rec['formula'], rec['edge'][0], rec['edge'][1], fm, tuple(rec['edge'])))
             elif a == 'determ':
                 body = ("a = run(%r, %r, K)\nK2 = Kripke(S=list(K.states()), R=list(K.transitions()), L={s: ({'p', 'q'} - set(K.labels(s))) for s in K.states()})\n"
                         "run(%r, %r, K2)\nb = run(%r, %r, K)\nbad = [] if a == b else ['same call returned %%r, then (after a call on another structure) %%r' %% (a, b)]\n"
@@ -756,9 +765,18 @@ def run_c07(rep, tier):
     tasks += [('LTL', 2, [x], dict(o)) for x in ltlf] + [('CTLS', 2, [x], dict(o)) for x in ctlsf]
     tasks += [('CTL', 2, ch, dict(o, fair=1, ctls_oracle=True, outside_d7=False)) for ch in chunks(ctlf[3:], 8)]
     tasks += [('CTLS', 2, ch, dict(o, fair=1, ctls_oracle=True, outside_d7=False)) for ch in chunks(ctlsf + ctlf[7:13], 3)]
-    done = run_tasks(rep, 'C07', tasks, ('pure', 'determ', 'determ_args', 'recall_same', 'textobj', 'unwind', 'after_edit'), 'the call leaves K and the formula unchanged; repeating it (also after a call on another structure) gives an equal set',
+    # F given as an EMPTY list (falsy, but not None), also with quantifier-free formulas: the structure still must not be touched
+    props = ['p', 'not q', 'p or not q', 'p and q', 'p --> q', 'true', 'not (p and not q)']
+    for lg in ('CTL', 'CTLS'):
+        tasks += [(lg, 2, ch, dict(o, fair=0, ctls_oracle=True, outside_d7=False)) for ch in chunks(props + (ctlf[:4] if lg == 'CTL' else ctlsf[:3]), 4)]
+        tasks += [(lg, 3, props[:4], dict(o, fair=0, ctls_oracle=True, outside_d7=False))]
+    # history: call; the caller edits a label and adds a transition through K's own API; call  (structures without that transition)
+    oe = dict(edit_then_call=True)
+    tasks += [('CTL', 3, ch, dict(oe, edge_then_call=(2, 0))) for ch in chunks(ctlf[::2], 6)] + [('CTL', 3, ch, dict(oe, edge_then_call=(1, 1))) for ch in chunks(ctlf[1::4], 6)]
+    tasks += [('LTL', 2, [x], dict(oe, edge_then_call=(1, 0))) for x in ltlf[::3]] + [('CTLS', 2, [x], dict(oe, edge_then_call=(1, 0))) for x in ctlsf[::3]]
+    done = run_tasks(rep, 'C07', tasks, ('pure', 'determ', 'determ_args', 'recall_same', 'textobj', 'unwind', 'after_edit', 'after_edge'), 'the call leaves K and the formula unchanged; repeating it (also after a call on another structure) gives an equal set',
                      mem_heavy=True)
-    rep.cov['bounds'].update(n='3 (CTL) / 2 (LTL, CTL*, fairness)', formulas=len(ctlf) + len(ltlf) + len(ctlsf), histories='call; call(other structure, same formula); call  |  call; call(other structure, with F if this call has none / without F if it has one); call  |  call; mutate result; call  |  call; caller edits K; call')
+    rep.cov['bounds'].update(n='3 (CTL) / 2 (LTL, CTL*, fairness)', formulas=len(ctlf) + len(ltlf) + len(ctlsf), histories='call; call(other structure, same formula); call  |  call; call(other structure, with F if this call has none / without F if it has one); call  |  call; mutate result; call  |  call; caller edits K; call  |  call; caller edits a label and adds a transition (K.add_edge); call')
     rep.cov['programs'] = len(ctlf) + len(ltlf) + len(ctlsf)
     rep.cov['states'] = done
     rep.cov['transitions'] = done
